@@ -32,6 +32,8 @@ public:
     constexpr const Tensor<T,N>& expr() const {return _expr;}
 
     FASTOR_INLINE TensorConstViewExpr(const Tensor<T,N> &_ex, const seq &_s) : _expr(_ex), _seq(_s) {
+        // take care of scalar indexing with -1 i.e. seq(-1)/seq(last), as the 2D and nD views do
+        if (_seq._last == 0 && _seq._first == -1) {_seq._first = N-1; _seq._last = N;}
         if (_seq._last < 0) _seq._last += N + /*including the end point*/ 1;
         if (_seq._first < 0) _seq._first += N + /*including the end point*/ 1;
     }
@@ -116,6 +118,8 @@ public:
     }
 
     FASTOR_INLINE TensorViewExpr(Tensor<T,N> &_ex, const seq &_s) : _expr(_ex), _seq(_s) {
+        // take care of scalar indexing with -1 i.e. seq(-1)/seq(last), as the 2D and nD views do
+        if (_seq._last == 0 && _seq._first == -1) {_seq._first = N-1; _seq._last = N;}
         if (_seq._last < 0) _seq._last += N + /*including the end point*/ 1;
         if (_seq._first < 0) _seq._first += N + /*including the end point*/ 1;
     }
